@@ -81,6 +81,18 @@ def eval_zone(case):
                 fail('classification-exception', wall=wall, error=repr(e)[:120])
                 continue
             info = dict(wall=wall, preimages=pre, exists=ex, ambiguous=am, offset_fold0=o0, offset_fold1=o1)
+            # the three documented call forms must agree: (naive, tz), (aware), (aware in another zone, tz)
+            try:
+                forms = {'aware': (tz.datetime_exists(wall.replace(tzinfo=z)), tz.datetime_ambiguous(wall.replace(tzinfo=z))),
+                         'aware+tz': (tz.datetime_exists(wall.replace(tzinfo=tz.UTC), z),
+                                      tz.datetime_ambiguous(wall.replace(tzinfo=tz.UTC), z)),
+                         'fold1': (tz.datetime_exists(wall.replace(fold=1), z), tz.datetime_ambiguous(wall.replace(fold=1), z))}
+            except Exception as e:
+                fail('classification-exception', wall=wall, error=repr(e)[:120])
+                continue
+            for fname, (fe, fa) in forms.items():
+                if (fe, fa) != (ex, am):
+                    fail('call-forms-disagree', form=fname, got=(fe, fa), **info)
             if ex != (len(pre) >= 1):
                 fail('datetime_exists-wrong', **info)
             if am != (len(pre) == 2):
